@@ -42,7 +42,8 @@ pub fn render(files: &Value) -> JaxFiles {
         }
         blocks.push(lines.join("\n"));
     }
-    f.obo = blocks.join("\n\n") + "\n";
+    // the noisy presets end the file with an empty line (the last stanza is closed like every other one)
+    f.obo = blocks.join("\n\n") + if files["genes"]["header"].as_u64() == Some(2) { "\n" } else { "\n\n" };
     // the extra columns carry arbitrary text - among it the word NOT, which is a qualifier only in the qualifier column
     let extra = |n: u64| -> String { (0..n).map(|i| if i % 3 == 1 { "\tNOT".to_string() } else { format!("\tcol{i}") }).collect::<String>() };
     let header = match files["genes"]["header"].as_u64().unwrap() {
